@@ -212,9 +212,9 @@ Proof.
     apply b64_div_monotone; auto using pos_finite_sf_finite.
 Qed.
 
-Lemma four_sig_of_bounds cls p n : 1000 <= n <= hi_bound cls p -> four_sig cls p n = true.
+Lemma four_sig_of_bounds cls p n : 1000 <= n <= hi_bound cls p -> four_sig_n cls p n = true.
 Proof.
-  unfold four_sig, hi_bound. intros [H1 H2].
+  unfold four_sig_n, hi_bound. intros [H1 H2].
   apply andb_true_iff. split; [lia|].
   destruct cls; try lia. destruct (p =? 1); lia.
 Qed.
@@ -224,7 +224,7 @@ Lemma four_sig_table cls fs v :
   valid_binary 53 1024 v = true -> is_pos_finite v = true -> in_range4 cls v = true ->
   exists s n, common_scale [v] cls = Some s
     /\ fx_signed (b64_div v (s_factor s)) (Z.to_nat (s_prec s)) = Some n
-    /\ four_sig cls (s_prec s) n = true
+    /\ four_sig_n cls (s_prec s) n = true
     /\ 1 <= s_prec s <= 3.
 Proof.
   intros Hfs Hok Vv Pv Hr.
@@ -264,7 +264,7 @@ Theorem four_sig_digits cls v :
   valid_binary 53 1024 v = true -> is_pos_finite v = true -> in_range4 cls v = true ->
   exists s n, common_scale [v] cls = Some s
     /\ fx_signed (b64_div v (s_factor s)) (Z.to_nat (s_prec s)) = Some n
-    /\ four_sig cls (s_prec s) n = true
+    /\ four_sig_n cls (s_prec s) n = true
     /\ 1 <= s_prec s <= 3.
 Proof.
   intros Hc. destruct boundary_table_ok as [HD HB].
@@ -346,7 +346,7 @@ Theorem four_sig_digits_text cls (v : spec_float) shortest :
   valid_binary 53 1024 v = true -> is_pos_finite (b64_abs v) = true -> in_range4 cls (b64_abs v) = true ->
   exists s n, common_scale (@cons spec_float v nil) cls = Some s
     /\ format shortest s v = fmt_sign (b64_signbit v) ++ fmt_mag n (Z.to_nat (s_prec s)) ++ s_prefix s
-    /\ four_sig cls (s_prec s) n = true
+    /\ four_sig_n cls (s_prec s) n = true
     /\ 1 <= s_prec s <= 3.
 Proof.
   intros Hc Vv Pa Hr.
@@ -377,8 +377,8 @@ Proof.
   assert (Hfx : fx_of (b64_div (b64_abs v) (s_factor s)) (Z.to_nat (s_prec s)) = FxFin false n).
   { revert Hn. unfold fx_signed.
     destruct (b64_div (b64_abs v) (s_factor s)) as [sq|sq| |sq mq eq] eqn:Eq; cbn [fx_of]; try discriminate.
-    - (* zero quotient: n = 0, excluded by four_sig *)
-      intros [= <-]. unfold four_sig in H4. destruct sq; cbn in H4; discriminate.
+    - (* zero quotient: n = 0, excluded by four_sig_n *)
+      intros [= <-]. unfold four_sig_n in H4. destruct sq; cbn in H4; discriminate.
     - assert (sq = false).
       { exact (div_pos_sign _ _ _ _ _ Pa Pf Eq). }
       subst sq. intros [= <-]. reflexivity. }
@@ -412,19 +412,19 @@ Definition mant_text_ok (cls : class) (t : bytes) : bool :=
   end.
 
 Definition mant_enum (cls : class) : bool :=
-  forallb (fun p => forallb (fun n => negb (four_sig cls p n) || mant_text_ok cls (fmt_mag n (Z.to_nat p)))
+  forallb (fun p => forallb (fun n => negb (four_sig_n cls p n) || mant_text_ok cls (fmt_mag n (Z.to_nat p)))
                             (zrange 1000 (Z.to_nat 9240))) [1; 2; 3].
 
 Lemma mant_enum_ok : mant_enum Decimal = true /\ mant_enum Binary = true.
 Proof. split; vm_compute; reflexivity. Qed.
 
 Lemma four_sig_text cls p n :
-  cls <> BadClass -> 1 <= p <= 3 -> four_sig cls p n = true ->
+  cls <> BadClass -> 1 <= p <= 3 -> four_sig_n cls p n = true ->
   mant_text_ok cls (fmt_mag n (Z.to_nat p)) = true.
 Proof.
   intros Hc Hp H4.
   assert (Hn : 1000 <= n < 1000 + Z.of_nat (Z.to_nat 9240)).
-  { unfold four_sig in H4. apply andb_true_iff in H4 as [A B]. apply Z.leb_le in A.
+  { unfold four_sig_n in H4. apply andb_true_iff in H4 as [A B]. apply Z.leb_le in A.
     rewrite Z2Nat.id by lia.
     destruct cls; try congruence; [|destruct (p =? 1)]; apply Z.leb_le in B; lia. }
   assert (He : mant_enum cls = true) by (destruct mant_enum_ok; destruct cls; congruence).
@@ -458,4 +458,48 @@ Proof.
   unfold mant_text_ok. intros H. apply andb_true_iff in H as [H _].
   destruct t as [|c t]; [discriminate|]. cbn in H |- *.
   destruct (Byte.eqb c "0") eqn:E; [|reflexivity]. apply beqb_eq in E. subst c. discriminate.
+Qed.
+
+(** ** the same with the mantissa range spelled out: [four_sig] = four digits
+    and one to three of them after the point, i.e. the mantissa n / 10^p is in
+    [1, 1000) resp. [1, 1024) - neither "1000k" (p = 0) nor "0.9999k" (p = 4) *)
+Lemma four_sig_of_n cls p n : 1 <= p <= 3 -> four_sig_n cls p n = true -> four_sig cls p n = true.
+Proof.
+  intros Hp H. unfold four_sig. rewrite H.
+  replace (1 <=? p) with true by (symmetry; apply Z.leb_le; lia).
+  replace (p <=? 3) with true by (symmetry; apply Z.leb_le; lia). reflexivity.
+Qed.
+
+Lemma four_sig_mantissa_range cls p n :
+  four_sig cls p n = true ->
+  10 ^ p <= n /\ n < (match cls with Binary => 1024 | _ => 1000 end) * 10 ^ p.
+Proof.
+  unfold four_sig, four_sig_n. rewrite !andb_true_iff. intros [[P1 P3] [N1 N2]].
+  apply Z.leb_le in P1, P3, N1.
+  assert (Hp : p = 1 \/ p = 2 \/ p = 3) by lia.
+  destruct Hp as [-> | [-> | ->]]; destruct cls; cbn in N2; apply Z.leb_le in N2; cbn; lia.
+Qed.
+
+Theorem four_sig_digits_p cls v :
+  cls <> BadClass ->
+  valid_binary 53 1024 v = true -> is_pos_finite v = true -> in_range4 cls v = true ->
+  exists s n, common_scale [v] cls = Some s
+    /\ fx_signed (b64_div v (s_factor s)) (Z.to_nat (s_prec s)) = Some n
+    /\ four_sig cls (s_prec s) n = true
+    /\ 1 <= s_prec s <= 3.
+Proof.
+  intros Hc Vv Pv Hr. destruct (four_sig_digits cls v Hc Vv Pv Hr) as (s & n & A & B & C & D).
+  exists s, n. repeat split; auto using four_sig_of_n; lia.
+Qed.
+
+Theorem four_sig_digits_text_p cls (v : spec_float) shortest :
+  cls <> BadClass ->
+  valid_binary 53 1024 v = true -> is_pos_finite (b64_abs v) = true -> in_range4 cls (b64_abs v) = true ->
+  exists s n, common_scale (@cons spec_float v nil) cls = Some s
+    /\ format shortest s v = fmt_sign (b64_signbit v) ++ fmt_mag n (Z.to_nat (s_prec s)) ++ s_prefix s
+    /\ four_sig cls (s_prec s) n = true
+    /\ 1 <= s_prec s <= 3.
+Proof.
+  intros Hc Vv Pa Hr. destruct (four_sig_digits_text cls v shortest Hc Vv Pa Hr) as (s & n & A & B & C & D).
+  exists s, n. repeat split; auto using four_sig_of_n; lia.
 Qed.
